@@ -38,6 +38,7 @@ def plan(tier, seed):
     shards.append({'name': 'stream', 'fn': 'shard_stream', 'args': {}})
     shards.append({'name': 'namespace-map', 'fn': 'shard_namespace', 'args': {}})
     shards.append({'name': 'raw-dump-preparation', 'fn': 'shard_raw_dump', 'args': {}})
+    shards.append({'name': 'sources-end-to-end', 'fn': 'shard_sources', 'args': {}})
     return shards
 
 
@@ -265,3 +266,81 @@ def shard_raw_dump(sh):
                     shifted = f.read().split('\n')[1:4]
             sh.check('wrong-count-rejected', refused, 'raw-dump:wrong-width-parts-accepted-and-shifted', lambda: {'kind': kind, 'header': header, 'part_rows': rows[:3], 'dump_lines': shifted})
         sh.case(('raw-dump', kind, k, t), kind != 'well-formed', 'raw-dump/' + kind, sample={'kind': kind, 'header': header, 'first_row': rows[0]} if t < 3 else None)
+
+
+def shard_sources(sh):
+    """ob-vw (namespace map + gzipped VW file) and ob-csv (dataset_desc.json + data.csv) sources through get_dataset_info and the
+    streaming loop: the rows that reach a mini-batch are the table rows, column for column."""
+    import gzip
+    import json
+    from outrank.core_utils import get_dataset_info
+    cr = pipe.fresh_core_ranking()
+    rng = sh.rng('sources')
+    admitted = []
+    real = cr.compute_batch_ranking
+
+    def hooked(rows, *a, **k):
+        admitted.extend([list(r) for r in rows])
+        if any(c is None for r in rows for c in r):
+            # the observation point of this property is the rows entering a mini-batch; what the batch stages do with cells reported
+            # as missing (None) is outside it (see DESIGN.md, observations outside the properties), so those batches stop here
+            from outrank.core_utils import BatchRankingSummary
+            return BatchRankingSummary([], {}), {}, {}, {}
+        return real(rows, *a, **k)
+    cr.compute_batch_ranking = hooked
+    for t in range(10 if sh.tier == 'quick' else 50):
+        fmt = rng.choice(['ob-vw', 'ob-csv'])
+        root = os.path.join(sh.scratch, 'src-%d' % t)
+        os.makedirs(root, exist_ok=True)
+        n = 23
+        if fmt == 'ob-vw':
+            ids = rng.sample(['A', 'B', 'Cq', 'd', 'Ex'], rng.randint(2, 4))
+            fw_map = {i: 'feat%s' % i for i in ids}
+            with open(os.path.join(root, 'vw_namespace_map.csv'), 'w') as f:
+                for i in ids:
+                    f.write('%s,%s%s\n' % (i, fw_map[i], rng.choice(['', ',f32', ','])))
+            header = ['label'] + [fw_map[i] for i in ids]
+            table, lines = [], []
+            for r in range(n):
+                present = [i for i in ids if rng.random() < 0.8]
+                rng.shuffle(present)
+                label = rng.choice(['1', '-1'])
+                row = {'label': label}
+                parts = [label + rng.choice(['', ' 1.0'])]
+                for i in present:
+                    toks = [rng.choice(VW_TOKS[:15]) for _ in range(rng.randint(1, 3))]
+                    parts.append(i + ' ' + ' '.join(toks))
+                    row[fw_map[i]] = '-'.join(toks)[2:]
+                lines.append(' |'.join(parts))
+                table.append([row.get(h) for h in header])
+            with gzip.open(os.path.join(root, 'data.vw.gz'), 'wt', encoding='utf-8') as f:
+                f.write('\n'.join(lines) + '\n')
+            expected = table[1:]          # the streaming loop treats the first line of every source file as a header line
+        else:
+            k = rng.randint(2, 5)
+            header = ['c%d' % i for i in range(k - 1)] + ['label']
+            with open(os.path.join(root, 'dataset_desc.json'), 'w') as f:
+                json.dump({'data_features': [{'name': h, 'type': rng.choice(['string', 'float', 'Float64'])} for h in header]}, f)
+            table = [[rng.choice(['a', 'b,c', '', 'x "y"', ' s', 'é', '1.5']) for _ in range(k)] for _ in range(n)]
+            buf = io.StringIO()
+            w = csv.writer(buf, lineterminator='\n')
+            w.writerow(header)
+            for r in table:
+                w.writerow(r)
+            with open(os.path.join(root, 'data.csv'), 'w', encoding='latin1', errors='replace', newline='') as f:
+                f.write(buf.getvalue())
+            expected = [[c.encode('latin1', 'replace').decode('latin1') for c in r] for r in table]
+        args = pipe.make_args(data_source=fmt, data_path=root, minibatch_size=4, heuristic='Constant', subsampling=1)
+        ok, info = sh.call('vw-roundtrip' if fmt == 'ob-vw' else 'csv-roundtrip', 'get_dataset_info', get_dataset_info, args)
+        if not ok:
+            continue
+        sh.check('vw-roundtrip' if fmt == 'ob-vw' else 'csv-roundtrip', list(info.column_names) == header, 'dataset-info:column-names!=declared', lambda: {'format': fmt, 'columns': list(info.column_names), 'expected': header})
+        del admitted[:]
+        ok, _ = sh.call('wrong-count-rejected', 'estimate_importances_minibatches', cr.estimate_importances_minibatches, input_file=info.data_path, column_descriptions=info.column_names,
+                        fw_col_mapping=info.fw_map, numeric_column_types=info.column_types, batch_size=4, args=args, data_encoding=info.encoding, cpu_pool=pipe.SyncPool(),
+                        delimiter=info.col_delimiter, logger=pipe.ListLogger())
+        if not ok:
+            continue
+        exp = expected[:len(expected) // 4 * 4]
+        sh.check('vw-roundtrip' if fmt == 'ob-vw' else 'csv-roundtrip', admitted == exp, 'source-rows-not-in-their-columns', lambda: {'format': fmt, 'header': header, 'admitted': admitted[:4], 'expected': exp[:4]})
+        sh.case(('source', fmt, t), True, 'source/' + fmt, sample={'format': fmt, 'header': header, 'first_admitted_row': admitted[0] if admitted else None} if t < 4 else None)
